@@ -34,17 +34,23 @@ theorem noView_of {w : World} {a : Args} (h : viewTarget w a = false) : NoViewTa
 /-- **the exception set** (parsed operation and arguments, judged in the world the line runs in):
     * `dump`, `state`, `fitsraw`: they print / compare the ARRAYS, which content-equal maps need
       not share (the only lines on which the two worlds are legitimately told apart);
-    * an in-place operation (`upd`, `updr`, `set`, `bits`, and `sop` / `mask` / `bop` / `inv` with
+    * an in-place operation (`upd`, `updr`, `set`, `bits`, `geom`, and `sop` / `mask` / `bop` / `inv` with
       `inplace=1`) whose target is a record-field VIEW: the store writes the column back into the parent —
       not covered by the simulation proved here;
-    * operations not (yet) covered by the simulation: see the list in the definition. -/
+    * the nine operations NOT covered by the simulation proved here: `pack`, `mop`, `deg`, `moc`,
+      `dor`, `cat`, `genhp`, `interp`, `hpxwrite` (no dependence on the block order was observed
+      on them either: `uncoveredEvidence` below — evaluated, not proved).
+    Covered (39 operations + the whole `p.*` family): cfg upd updr set bits geom sop mask astype bop
+    inv chk copy info upg mocread single scov meta getmeta write read covread fromhp hpximplicit
+    hpxread rand vals get valid nvalid covmap vpsc fracdet covmask drop reset bad, unknown
+    operations. -/
 def diff (w : World) (op : String) (a : Args) : Bool :=
   match op with
   | "dump" | "state" | "fitsraw" => true
-  | "upd" | "updr" | "set" | "bits" => viewTarget w a
+  | "upd" | "updr" | "set" | "bits" | "geom" => viewTarget w a
   | "sop" | "mask" | "bop" | "inv" => a.flag "inplace" && viewTarget w a
   -- not covered
-  | "pack" | "mop" | "deg" | "moc" | "dor" | "cat" | "genhp" | "interp" | "hpxwrite" | "geom" => true
+  | "pack" | "mop" | "deg" | "moc" | "dor" | "cat" | "genhp" | "interp" | "hpxwrite" => true
   | _ => false
 
 /-- … on a protocol line -/
@@ -85,6 +91,7 @@ theorem same_stepArgs {w₁ w₂ : World} (h : w₁.SameW w₂) (g₁ : w₁.Goo
     | exact same_opUpdr h g₁ g₂ a (noView_of hex)
     | exact same_opSet h g₁ g₂ a (noView_of hex)
     | exact same_opBits h g₁ g₂ a (noView_of hex)
+    | exact same_opGeom h g₁ g₂ a (noView_of hex)
     | exact same_opSop h g₁ g₂ a (inplace_noView hex)
     | exact same_opMask h g₁ g₂ a (inplace_noView hex)
     | exact same_opBop h g₁ g₂ a (inplace_noView hex)
@@ -287,6 +294,40 @@ def continuation : List String :=
 -- the exception set flags the array dumps and the operations not covered
 #guard diffLine (runLines route₁) "dump m" && diffLine (runLines route₁) "state m cov=_ sp=_" &&
        diffLine (runLines route₁) "deg m ord=0 r=d" && !diffLine (runLines route₁) "upd m pix=1 val=1"
+
+/-- the operations the simulation does not cover, run after both routes -/
+def uncoveredEvidence : List String :=
+  ["deg m ord=0 red=sum r=d1", "vals d1", "deg m ord=0 red=mean r=d2", "vals d2",
+   "deg m ord=0 red=or r=d3", "vals d3",
+   "cfg k kind=plain dtype=i4 covord=0 spord=1", "upd k pix=5,30 vals=2,3",
+   "mop maps=m,k name=sum_union r=s1", "vals s1", "mop maps=m,k name=max_intersection r=s2",
+   "vals s2", "valid s2", "moc m f=M", "mocread f=M covord=0 r=mm", "valid mm",
+   "genhp m", "genhp m ord=0 red=sum", "interp m nb=5:6:40:41 w=1:1:1:1",
+   "hpxwrite m f=H", "hpxread f=H covord=0 r=hh", "vals hh",
+   "write m f=F", "dor f=F ord=0 red=sum r=dd", "vals dd",
+   "write k f=G", "cat files=F,G f=C", "read f=C r=cc", "vals cc",
+   "geom m ranges=0:4 value=3 op=replace mode=ior", "vals m",
+   "cfg b kind=plain dtype=b1 covord=0 spord=2", "upd b pix=100 val=T", "upd b pix=5 val=T",
+   "pack b r=pb", "valid pb", "vals pb"]
+
+-- EVIDENCE ONLY (not covered by `same_step`): the same answers on both routes here too
+#guard (runObs (runLines route₁) uncoveredEvidence).2 == (runObs (runLines route₂) uncoveredEvidence).2
+
+/-- boolean maps, record maps and views of the covered set, after two routes -/
+def boolRoute (swap : Bool) : List String :=
+  ["cfg b kind=plain dtype=b1 covord=0 spord=1", "cfg r kind=rec fields=i4,f8 primary=0 covord=0 spord=1"] ++
+  (if swap then ["upd b pix=40 val=T", "upd b pix=5 val=T", "upd r pix=40 val=r1;2", "upd r pix=5 val=r3;4"]
+   else ["upd b pix=5 val=T", "upd b pix=40 val=T", "upd r pix=5 val=r3;4", "upd r pix=40 val=r1;2"])
+
+def boolContinuation : List String :=
+  ["inv b r=nb", "valid nb", "bop b op=or rhs=nb r=ob", "valid ob", "bop b op=and const=F inplace=1",
+   "valid b", "single r field=1 copy=1 r=s1", "vals s1", "single r field=1 r=v1", "vals v1",
+   "nvalid v1", "geom b ranges=0:4 value=T op=or mode=or r=gb", "valid gb"]
+
+#guard (step (runLines (boolRoute true)) "dump r").2 != (step (runLines (boolRoute false)) "dump r").2
+#guard sameSafe (runLines (boolRoute true)) boolContinuation
+#guard (runObs (runLines (boolRoute true)) boolContinuation).2
+        == (runObs (runLines (boolRoute false)) boolContinuation).2
 
 /-- the theorems applied: any two routes whose final worlds are content-equal (hypothesis `h`,
     e.g. from `upd_routes_sameW`) are indistinguishable by `continuation` -/
